@@ -10,9 +10,9 @@ import (
 	"io"
 	"os"
 	"os/signal"
+	"regexp"
 	"runtime"
 	"strconv"
-	"strings"
 	"sync"
 	"syscall"
 	"time"
@@ -295,22 +295,14 @@ func WriteScript(dir, name, text string) string {
 	return p
 }
 
-// FailLine extracts N from the first "FAIL: <file>:N:" line of a log (-1 if none).
+// failRe finds a FAIL entry. It need not start its line: the output of a program
+// that does not end in a newline is followed directly by the entry.
+var failRe = regexp.MustCompile(`FAIL: [^\s:]+:(\d+): `)
+
+// FailLine extracts N from the first "FAIL: <file>:N:" entry of a log (-1 if none).
 func FailLine(log string) int {
-	for _, l := range strings.Split(log, "\n") {
-		l = strings.TrimSpace(l)
-		if !strings.HasPrefix(l, "FAIL: ") {
-			continue
-		}
-		rest := l[len("FAIL: "):]
-		// <file>:<line>: message — the file name may contain ':' only on windows
-		parts := strings.SplitN(rest, ":", 3)
-		if len(parts) < 3 {
-			continue
-		}
-		if n, err := strconv.Atoi(parts[1]); err == nil {
-			return n
-		}
+	if l := AllFailLines(log); len(l) > 0 {
+		return l[0]
 	}
 	return -1
 }
@@ -318,16 +310,8 @@ func FailLine(log string) int {
 // AllFailLines returns the line numbers of all FAIL entries in order.
 func AllFailLines(log string) []int {
 	var out []int
-	for _, l := range strings.Split(log, "\n") {
-		l = strings.TrimSpace(l)
-		if !strings.HasPrefix(l, "FAIL: ") {
-			continue
-		}
-		parts := strings.SplitN(l[len("FAIL: "):], ":", 3)
-		if len(parts) < 3 {
-			continue
-		}
-		if n, err := strconv.Atoi(parts[1]); err == nil {
+	for _, m := range failRe.FindAllStringSubmatch(log, -1) {
+		if n, err := strconv.Atoi(m[1]); err == nil {
 			out = append(out, n)
 		}
 	}
